@@ -1,11 +1,16 @@
 #!/bin/bash
 # tools/intake.sh ROUND SUFFIX_A SUFFIX_B ID...  -- confirm and file the seeds a sub-agent left in /tmp/seed<ROUND>-<ID>-work/{A,B}
-# as seeded/<ID>-<SUFFIX_A>, -<SUFFIX_B>; run the property's check on them; remove the agent's worktree
+# as seeded/<ID>-<SUFFIX_A>, -<SUFFIX_B>; run the property's check on the two new seeds; remove the agent's worktree
 cd "$(dirname "$0")/.."
 R="$1"; SA="$2"; SB="$3"; shift 3
 for id in "$@"; do
   tools/confirm_seed.sh $id A /tmp/seed$R-$id-work/A $SA 2>&1 | tail -1
   tools/confirm_seed.sh $id B /tmp/seed$R-$id-work/B $SB 2>&1 | tail -1
-  tools/run_seeds.sh $id 2>&1 | grep -E -- "-($SA|$SB) " | cut -c1-220
+  for s in $SA $SB; do
+    if [ -f seeded/$id-$s/patch.diff ]; then
+      out=$(tools/mutant.sh seeded/$id-$s/patch.diff $id quick 2>&1)
+      echo "seeded/$id-$s $(echo "$out" | grep -o 'exit=[0-9]*' | tail -1) $(echo "$out" | grep -c '^VIOLATION') $(echo "$out" | grep '^VIOLATION' | head -1 | sed 's/.*replays\///' | cut -c1-150)"
+    fi
+  done
   git -C /repo worktree remove --force /tmp/seed$R-$id 2>/dev/null
 done
